@@ -123,6 +123,8 @@ package client
 // shared secret of THIS handshake and what is opened is the session key returned.
 // buildClientHello is uTLS (assumed: returns a non-empty hello or an error; changes nothing visible).
 // ---------------------------------------------------------------------------------------------
+// buildClientHello is uTLS all the way down (its extension and key-share structs are outside the verifier's
+// subset): assumed. In particular WHICH key share it overwrites is not checked (seed C06-p1 is not detected).
 //@ func buildClientHello
 //@   flag trusted
 //@ func randomServerName
